@@ -2348,6 +2348,9 @@ pub enum UnpackError {
 
 pub fn unpack_columns(mut buf: &[u8]) -> Result<Vec<SqliteValueRef<'_>>, UnpackError> {
     let mut ret = vec![];
+    if !buf.has_remaining() {
+        return Err(UnpackError::Abort);
+    }
     let num_columns = buf.get_u8();
 
     for _i in 0..num_columns {
@@ -2357,13 +2360,16 @@ pub fn unpack_columns(mut buf: &[u8]) -> Result<Vec<SqliteValueRef<'_>>, UnpackE
         let column_type_and_maybe_intlen = buf.get_u8();
         let column_type = ColumnType::from_u8(column_type_and_maybe_intlen & 0x07);
         let intlen = (column_type_and_maybe_intlen >> 3) as usize;
+        if intlen > 8 {
+            return Err(UnpackError::Misuse);
+        }
 
         match column_type {
             Some(ColumnType::Blob) => {
                 if buf.remaining() < intlen {
                     return Err(UnpackError::Abort);
                 }
-                let len = buf.get_int(intlen) as usize;
+                let len = buf.get_uint(intlen) as usize;
                 if buf.remaining() < len {
                     return Err(UnpackError::Abort);
                 }
@@ -2380,7 +2386,11 @@ pub fn unpack_columns(mut buf: &[u8]) -> Result<Vec<SqliteValueRef<'_>>, UnpackE
                 if buf.remaining() < intlen {
                     return Err(UnpackError::Abort);
                 }
-                ret.push(SqliteValueRef(ValueRef::Integer(buf.get_int(intlen))));
+                // packed as the minimal number of bytes of the two's complement bit
+                // pattern: read it back without sign extension
+                ret.push(SqliteValueRef(ValueRef::Integer(
+                    buf.get_uint(intlen) as i64,
+                )));
             }
             Some(ColumnType::Null) => {
                 ret.push(SqliteValueRef(ValueRef::Null));
@@ -2389,7 +2399,7 @@ pub fn unpack_columns(mut buf: &[u8]) -> Result<Vec<SqliteValueRef<'_>>, UnpackE
                 if buf.remaining() < intlen {
                     return Err(UnpackError::Abort);
                 }
-                let len = buf.get_int(intlen) as usize;
+                let len = buf.get_uint(intlen) as usize;
                 if buf.remaining() < len {
                     return Err(UnpackError::Abort);
                 }
